@@ -27,6 +27,7 @@ def canon(d):
 
 from common import CORPUS
 from gen import sdl
+from corr import C11_extend
 
 PROPERTY = "C11"
 RULE = ("generated type-system documents: declared content (6 kinds, wrappers, defaults of every input kind, descriptions, "
@@ -437,14 +438,19 @@ def extension_doc(rng, D):
     return B, both
 
 
+EXT_CASES = []      # generated extend_schema cases for the model of the public extend_schema (corr/C11_extend.py)
+
+
 def run_extend(ctx, batch):
+    del EXT_CASES[:]
     n = ctx.n(40, 300)
     for k in range(n):
         if ctx.time_left() < 14:
             ctx.notes.append("extend_schema cases cut short at %d" % k)
             break
         D, items = sdl.gen_doc(ctx.rng, size=ctx.rng.choice([1, 2]), p_ext=ctx.rng.choice([0.0, 0.4]))
-        a_text = sdl.render(sdl.permute(ctx.rng, items))
+        a_items = sdl.permute(ctx.rng, items)
+        a_text = sdl.render(a_items)
         B, both = extension_doc(ctx.rng, D)
         try:
             expected = sdl.expected_dump(both)
@@ -467,6 +473,8 @@ def run_extend(ctx, batch):
             detail = {"base_sdl": a_text, "ext_sdl": b_text, "strict": strict, "expected": expected}
             if real[0] == "base":
                 break
+            EXT_CASES.append({"real": real, "detail": {"base_sdl": a_text, "ext_sdl": b_text, "strict": strict},
+                              "req": {"op": "extend", "doc": a_items, "ext": order, "strict": strict}})
             if real[0] == "ok":
                 batch.add(a_text + "\n" + b_text, sdl.items_of_content(D) + order, real, {})
                 if canon(real[1]) != canon(expected):
@@ -498,6 +506,7 @@ def run_extend(ctx, batch):
             ctx.count()
             ctx.stat("extend_schema:duplicate-definition:" + real[0])
             detail = {"base_sdl": a_text, "ext_sdl": b_text, "strict": strict, "duplicated": victim["name"]}
+            EXT_CASES.append({"real": real, "detail": dict(detail), "req": {"op": "extend", "doc": a_items, "ext": order, "strict": strict}})
             if real[0] == "ok":
                 ctx.fail("extend-schema:invalid-accepted:duplicate-%s-definition" % victim["k"],
                          "extend_schema accepts a document that defines %s twice (the last definition wins)" % victim["name"], detail)
@@ -921,6 +930,7 @@ def run(ctx):
     run_corpus(ctx, batch)
     run_generated(ctx, batch)
     run_extend(ctx, batch)
+    probes = C11_extend.run_probes(ctx, real_extend, sdl.doc_json, canon, sort_dump, diff_path)
     run_invalid(ctx, batch)
     run_validation_rules(ctx, batch)
     run_schema_directives(ctx)
@@ -930,6 +940,7 @@ def run(ctx):
     run_long_chains(ctx)
     run_model(ctx, batch)
     ctx.extra["documents_sent_to_model"] = len(batch.cases)
+    C11_extend.run_model(ctx, probes, EXT_CASES, canon, sort_dump, diff_path)
 
 
 def replay(ctx, data):
@@ -943,6 +954,11 @@ def replay(ctx, data):
         c2 = type(ctx)(ctx.prop, ctx.tier, ctx.seed)
         (run_special if inp.get("special") else run_schema_directives)(c2)
         return not any(f["kind"] == "property" and f["detail"].get("sdl") == inp.get("sdl") for f in c2.found)
+    if "probe" in inp:
+        exp = {p[0]: p for p in C11_extend.PROBES}.get(inp["probe"])
+        real = real_extend(inp["base_sdl"], inp["ext_sdl"], inp.get("strict", True))
+        want = exp[2 if inp.get("strict", True) else 3] if exp else "any"
+        return real[0] != "exc" and (want == "any" or real[0] == want)
     if "duplicated" in inp:
         return real_extend(inp["base_sdl"], inp["ext_sdl"], inp.get("strict", True))[0] == "rej"
     if "base_sdl" in inp:
